@@ -120,7 +120,9 @@ func (share *Share) Verify(ec elliptic.Curve, threshold int, vs Vs) bool {
 			return false
 		}
 	}
-	sigmaGi := crypto.ScalarBaseMult(ec, share.Share)
+	// the share is a residue modulo q: ScalarBaseMult only sees the magnitude of its argument, so a negative
+	// big.Int -s would be accepted in place of s although -s != s (mod q)
+	sigmaGi := crypto.ScalarBaseMult(ec, new(big.Int).Mod(share.Share, ec.Params().N))
 	return sigmaGi.Equals(v)
 }
 
